@@ -22,7 +22,7 @@ func (c19) Rule() string {
 	return "cases = command sequences of 50..400 commands over 3..6 keys x 3..5 fields/members mixing strings with TTL (0, +10^4 h, -1 h only: expiry never depends on when the check runs), hashes, sets, lists (push/pop at both ends, pops on empty lists) and sorted sets (score updates, re-adding with the same score), wrong-type commands on every type pair, Del + re-creation with another type, commands on expired strings, and 1..4 restarts; store with small DataFileSize so that structure updates span rotations, all index types and both I/O types. Every reply is normalised to an abstract outcome (present(v) / absent / bool / size / score / type / wrong-type) and compared with an in-memory reference model of the five types, immediately and again for a full read-back of all keys/fields/members after every restart. Non-trivial: sequence using >=4 of the 5 types, >=1 wrong-type reply, >=1 Del + re-creation and >=1 restart; distinct = hash of (config, command log)"
 }
 func (c19) Assumptions() []string {
-	return []string{"absence encodings ((nil,nil), ErrKeyNotFound, (-1,nil)) are normalised to `absent`", "stored element values are non-empty (an empty stored value and absence are indistinguishable through HGet)",
+	return []string{"absence encodings ((nil,nil), ErrKeyNotFound, (-1,nil)) are normalised to `absent`", "string values are non-empty; hash fields and list elements may be empty, in which case HGet/LPop/RPop replies are compared modulo `empty == absent` (the API cannot tell them apart) while HSet/HDel flags and sizes are compared exactly",
 		"a container emptied by removals keeps its type until Del (the model follows the engine here; the statement does not say)", "TTL only far past / far future", "members/fields are short strings that cannot collide with the internal key encoding", "scores are never -1 (ZScore encodes absence as -1)"}
 }
 func (c19) Required() []string {
@@ -83,6 +83,10 @@ func outVal(v []byte, err error) string {
 	return "present:" + core.HashBytes(v)[:10] + fmt.Sprintf("/%d", len(v))
 }
 func wantVal(v []byte) string {
+	if len(v) == 0 {
+		// a stored empty element and absence are the same reply of HGet/LPop/RPop
+		return "absent"
+	}
 	return "present:" + core.HashBytes(v)[:10] + fmt.Sprintf("/%d", len(v))
 }
 func outBool(b bool, err error) string {
@@ -287,6 +291,10 @@ func (c19) Run(c core.Case, w *core.Worker) core.Result {
 				cmp("Get", outVal(v, err), want)
 			case 2: // HSet
 				v := val()
+				if r.Chance(1, 6) {
+					v = []byte{} // empty field value: HSet/HDel replies and sizes stay decidable
+					res.Add("empty_element_values", 1)
+				}
 				logl = append(logl, fmt.Sprintf("HSet(%s,%s,len=%d)", k, e, len(v)))
 				b, err := svc.HSet(kb, eb, v)
 				o, wt := access(k, tHash, true)
@@ -363,6 +371,10 @@ func (c19) Run(c core.Case, w *core.Worker) core.Result {
 			case 8, 9: // LPush / RPush
 				left := cmd == 8
 				v := val()
+				if r.Chance(1, 8) {
+					v = []byte{}
+					res.Add("empty_element_values", 1)
+				}
 				name := "RPush"
 				if left {
 					name = "LPush"
